@@ -446,6 +446,98 @@ func runC07(seed uint64, n int, tier string, outDir string) []*Stats {
 	}
 	cf.AddCases("find_cases", "list (list Z) * Z * Z * list Z", "check_find", findItems)
 
+	// --- line offset tables, LineColumnOffset.Advance*, table lookup vs direct scan
+	var lcItems []string
+	for i := 0; i < n/3; i++ {
+		text := randText(r)
+		tables := sourcemap.GenerateLineOffsetTables(text, int32(strings.Count(text, "\n")+1))
+		dump := sourcemap.VerifDumpLineOffsetTables(tables)
+		var tl []string
+		for _, t := range dump {
+			has := 0
+			if t.ColumnsForNonASCII != nil {
+				has = 1
+			}
+			cols := make([]int64, len(t.ColumnsForNonASCII))
+			for k, c := range t.ColumnsForNonASCII {
+				cols[k] = int64(c)
+			}
+			tl = append(tl, fmt.Sprintf("([%d;%d;%d],%s)", t.ByteOffsetToStartOfLine, t.ByteOffsetToFirstNonASCII, has, CZList(cols)))
+		}
+		start := sourcemap.LineColumnOffset{Lines: r.Intn(3), Columns: r.Intn(10)}
+		adv := start
+		if r.Bool() {
+			adv.AdvanceBytes([]byte(text))
+		} else {
+			adv.AdvanceString(text)
+		}
+		lcItems = append(lcItems, fmt.Sprintf("(%s,[%s],(%d,%d),(%d,%d))", CBytes([]byte(text)), strings.Join(tl, ";"), start.Lines, start.Columns, adv.Lines, adv.Columns))
+		note("linecol", text, len(text) > 2)
+		// property predicate on the implementation: every rune boundary maps to the true UTF-16 line/column
+		if bad := checkTablesAgainstScan(text); bad != "" {
+			st.Fail("lineoffset-table-wrong", text, bad, "table lookup = direct UTF-16 scan")
+		}
+	}
+	cf.AddCases("linecol_cases", "bytes * list (list Z * list Z) * (Z * Z) * (Z * Z)", "check_linecol", lcItems)
+
+	// --- the real ChunkBuilder driven by recorded events vs the Builder.v model
+	var bItems []string
+	for i := 0; i < n/4; i++ {
+		text := randText(r)
+		lines := strings.Count(text, "\n") + 1
+		tables := sourcemap.GenerateLineOffsetTables(text, int32(lines))
+		b := sourcemap.MakeChunkBuilder(nil, tables, false)
+		// valid locs: rune boundaries
+		var locs []int
+		for off := range text {
+			locs = append(locs, off)
+		}
+		locs = append(locs, len(text))
+		names := []string{"", "alpha", "beta", "gamma", "alpha2"}
+		var out []byte
+		var evs []string
+		var pending []byte
+		nev := r.Range(0, 10)
+		prevLoc := -1
+		for e := 0; e < nev; e++ {
+			// text printed since the previous call
+			delta := []byte(randOutputChunk(r))
+			if e == 0 && r.Chance(50) {
+				delta = nil
+			}
+			out = append(out, delta...)
+			pending = append(pending, delta...)
+			loc := locs[r.Intn(len(locs))]
+			if r.Chance(15) && prevLoc >= 0 {
+				loc = prevLoc // exercise duplicate suppression
+			}
+			prevLoc = loc
+			nameID := 0
+			if r.Chance(45) {
+				nameID = r.Range(1, len(names)-1)
+			}
+			b.AddSourceMapping(logger.Loc{Start: int32(loc)}, names[nameID], out)
+			evs = append(evs, fmt.Sprintf("(%d,%d,%s)", loc, nameID, CBytes(pending)))
+			pending = nil
+		}
+		fin := []byte(randOutputChunk(r))
+		out = append(out, fin...)
+		ch := b.GenerateChunk(out)
+		var nameIDs []int64
+		for _, q := range ch.QuotedNames {
+			for id, nm := range names {
+				if string(q) == "\""+nm+"\"" {
+					nameIDs = append(nameIDs, int64(id))
+				}
+			}
+		}
+		es := ch.EndState
+		bItems = append(bItems, fmt.Sprintf("(%s,[%s],%s,%s,%s,%s,%s,%s,%d,%s)", CBytes([]byte(text)), strings.Join(evs, ";"), CBytes(fin),
+			CBytes(ch.Buffer.Data), CZ(fnoOf(ch.Buffer.FirstNameOffset)), CZList(nameIDs), stateFields(es), CBool(es.HasOriginalName), ch.FinalGeneratedColumn, CBool(ch.ShouldIgnore)))
+		note("builder", text+strings.Join(evs, ""), nev > 1)
+	}
+	cf.AddCases("builder_cases", "bytes * list (Z * Z * bytes) * bytes * bytes * Z * list Z * list Z * bool * Z * bool", "check_builder", bItems)
+
 	// --- glue: real builds with marker programs
 	glueN := n / 25
 	if glueN < 8 {
@@ -962,4 +1054,113 @@ func clip(s string) string {
 		return s[:60]
 	}
 	return s
+}
+
+func randText(r *Rng) string {
+	var sb strings.Builder
+	n := r.Range(0, 30)
+	for i := 0; i < n; i++ {
+		switch r.Intn(16) {
+		case 0:
+			sb.WriteString("\n")
+		case 1:
+			sb.WriteString("\r\n")
+		case 2:
+			sb.WriteString("\r")
+		case 3:
+			sb.WriteString("\u2028")
+		case 4:
+			sb.WriteString("\u2029")
+		case 5:
+			sb.WriteString("\u00e9")
+		case 6:
+			sb.WriteString("\U0001F600")
+		case 7:
+			sb.WriteString("\u4e2d")
+		case 8:
+			sb.WriteString(string([]byte{0xC3})) // truncated / invalid UTF-8
+		case 9:
+			sb.WriteString(string([]byte{0xE2, 0x80})) // truncated 3-byte sequence
+		case 10:
+			sb.WriteString(string([]byte{0xED, 0xA0, 0x80})) // encoded surrogate: invalid for Go
+		default:
+			sb.WriteByte("abcxyz ;(){}=\t"[r.Intn(14)])
+		}
+	}
+	return sb.String()
+}
+
+func randOutputChunk(r *Rng) string {
+	var sb strings.Builder
+	for k := r.Range(0, 6); k > 0; k-- {
+		switch r.Intn(10) {
+		case 0:
+			sb.WriteString("\n")
+		case 1:
+			sb.WriteString("\r\n")
+		case 2:
+			sb.WriteString("\u00e9")
+		case 3:
+			sb.WriteString("\U0001F600")
+		case 4:
+			sb.WriteString("\u2028")
+		case 5:
+			sb.WriteString("\r")
+		default:
+			sb.WriteString("ab ")
+		}
+	}
+	return sb.String()
+}
+
+// independent oracle for the line offset tables: scan the text directly
+func checkTablesAgainstScan(text string) string {
+	tables := sourcemap.VerifDumpLineOffsetTables(sourcemap.GenerateLineOffsetTables(text, 1))
+	line, col := 0, 0
+	bs := []byte(text)
+	i := 0
+	check := func(off int) string {
+		// find the table line: last table with start <= off
+		tl := -1
+		for k, t := range tables {
+			if int(t.ByteOffsetToStartOfLine) <= off {
+				tl = k
+			}
+		}
+		if tl < 0 {
+			return fmt.Sprintf("offset %d: no table line", off)
+		}
+		t := tables[tl]
+		c := off - int(t.ByteOffsetToStartOfLine)
+		if t.ColumnsForNonASCII != nil && c >= int(t.ByteOffsetToFirstNonASCII) {
+			idx := c - int(t.ByteOffsetToFirstNonASCII)
+			if idx >= len(t.ColumnsForNonASCII) {
+				return fmt.Sprintf("offset %d: column table too short", off)
+			}
+			c = int(t.ColumnsForNonASCII[idx])
+		}
+		if tl != line || c != col {
+			return fmt.Sprintf("offset %d: table says %d:%d, scan says %d:%d", off, tl, c, line, col)
+		}
+		return ""
+	}
+	for i < len(bs) {
+		if bad := check(i); bad != "" {
+			return bad
+		}
+		c, w := utf8.DecodeRune(bs[i:])
+		switch {
+		case c == '\r' && i+1 < len(bs) && bs[i+1] == '\n':
+			col++
+		case c == '\r' || c == '\n' || c == '\u2028' || c == '\u2029':
+			line++
+			col = 0
+		case c > 0xFFFF:
+			col += 2
+		default:
+			col++
+		}
+		i += w
+	}
+	return check(len(bs))
 }
